@@ -129,6 +129,18 @@ func Font(r *rand.Rand, o Opts) (*sfnt.Font, *Info) {
 	f.UnitsPerEm = upm
 	q := 1 / float64(upm)
 	f.FontMatrix = matrix.Matrix{q, 0, 0, q, 0, 0}
+	if !o.Plain && kind != "glyf" && r.IntN(10) == 0 {
+		// CFF fonts carry their font matrix: oblique, anisotropic or shifted
+		switch r.IntN(3) {
+		case 0:
+			f.FontMatrix = matrix.Matrix{q, 0, q * float64(1+r.IntN(400)) / 1000, q, 0, 0}
+		case 1:
+			f.FontMatrix = matrix.Matrix{q, 0, 0, q * float64(500+r.IntN(1000)) / 1000, 0, 0}
+		default:
+			f.FontMatrix = matrix.Matrix{q, 0, 0, q, float64(r.IntN(200)) / 1000, float64(r.IntN(200)) / 1000}
+		}
+		info.Classes = append(info.Classes, "cff:font-matrix-not-a-plain-scale")
+	}
 
 	// widths
 	fixed := r.IntN(5) == 0
@@ -465,6 +477,35 @@ func headerFields(r *rand.Rand, o Opts, f *sfnt.Font, info *Info) {
 		f.UnderlineThickness = funit.Float64(r.Float64() * 100)
 		info.Classes = append(info.Classes, "rule:underline-rounding")
 	}
+	if !o.Plain && r.IntN(8) == 0 {
+		// legal but unusual values: signs and magnitudes that real fonts
+		// rarely have
+		switch r.IntN(5) {
+		case 0: // leaning to the left, or by more than 30 degrees
+			f.ItalicAngle = float64(r.IntN(2*179*65536)-179*65536) / 65536
+			f.IsItalic, f.IsRegular = true, false
+			info.Classes = append(info.Classes, "unusual:italic-angle")
+		case 1: // every sign pattern of the vertical metrics
+			f.Ascent = funit.Int16(r.IntN(4001) - 2000)
+			f.Descent = funit.Int16(r.IntN(4001) - 2000)
+			f.LineGap = funit.Int16(r.IntN(2001) - 1000)
+			info.Classes = append(info.Classes, "unusual:vertical-metrics-signs")
+		case 2: // underline above the baseline, thick
+			f.UnderlinePosition = funit.Float64(r.IntN(32768))
+			f.UnderlineThickness = funit.Float64(r.IntN(32768))
+			if r.IntN(2) == 0 {
+				f.UnderlinePosition = -32768
+			}
+			info.Classes = append(info.Classes, "unusual:underline")
+		case 3: // large version numbers
+			f.Version = head.Version(uint32(20+r.IntN(65516))<<16 | uint32(r.IntN(65536))).Round()
+			info.Classes = append(info.Classes, "unusual:version>=20")
+		case 4: // weight and width classes at the ends of their ranges
+			f.Weight = os2.Weight([]int{1, 1000, 949, 950, 51, 50}[r.IntN(6)])
+			f.Width = os2.Width([]int{1, 9}[r.IntN(2)])
+			info.Classes = append(info.Classes, "unusual:weight-width-ends")
+		}
+	}
 }
 
 // simpleGlyph draws a TrueType simple glyph with true bounds.
@@ -617,6 +658,11 @@ func glyfOutlines(r *rand.Rand, o Opts, n int, widths []int, info *Info) *glyf.O
 	for _, t := range []string{"cvt ", "fpgm", "prep", "gasp"} {
 		if r.IntN(3) == 0 {
 			b := make([]byte, 2+2*r.IntN(20))
+			if !o.Plain && r.IntN(4) == 0 {
+				// odd lengths (padding inside the container) and one-byte tables
+				b = make([]byte, 1+r.IntN(41))
+				info.Classes = append(info.Classes, "glyf:aux-table-any-length")
+			}
 			for i := range b {
 				b[i] = byte(r.Uint32())
 			}
@@ -629,6 +675,13 @@ func glyfOutlines(r *rand.Rand, o Opts, n int, widths []int, info *Info) *glyf.O
 		MaxStorage: uint16(r.IntN(100)), MaxFunctionDefs: uint16(r.IntN(100)), MaxInstructionDefs: uint16(r.IntN(100)),
 		MaxStackElements: uint16(r.IntN(1000)), MaxSizeOfInstructions: uint16(r.IntN(1000)),
 		MaxComponentElements: uint16(r.IntN(10)), MaxComponentDepth: uint16(r.IntN(5)),
+	}
+	if !o.Plain && r.IntN(10) == 0 {
+		ext := func() uint16 { return []uint16{0, 0xFFFF, 0x8000, 0x7FFF}[r.IntN(4)] }
+		out.Maxp = &maxp.TTFInfo{MaxPoints: ext(), MaxContours: ext(), MaxCompositePoints: ext(), MaxCompositeContours: ext(),
+			MaxZones: ext(), MaxTwilightPoints: ext(), MaxStorage: ext(), MaxFunctionDefs: ext(), MaxInstructionDefs: ext(),
+			MaxStackElements: ext(), MaxSizeOfInstructions: ext(), MaxComponentElements: ext(), MaxComponentDepth: ext()}
+		info.Classes = append(info.Classes, "glyf:maxp-extremes")
 	}
 	return out
 }
